@@ -101,6 +101,10 @@ def harness_line(c):
     trust = CA_FILES[c['trust']] if c['mode'] == 'ca' else CERTS[c['trust']]['cert']
     t = [f'side={c["side"]}', f'min={c["min"]}', f'mode={c["mode"]}', f'authz={int(c["authz"])}', f'name={c["name"] or "-"}',
          f'trust={trust}', f'cert={loc["cert"]}', f'key={loc["key"]}', f'peer={c["peer"]}', f'offer={c["offer"]}']
+    if c.get('ctor'):
+        t.append(f'ctor={c["ctor"]}')
+    if 'wild' in c:
+        t.append(f'wildcard={int(c["wild"])}')
     if c['presented']:
         pname, with_chain = presented_of(c)
         p = CERTS[pname]
@@ -202,6 +206,14 @@ def grid(full):
                     add(cell('client', mn, 'ca', False, name, trust, local, peer, offer, pres, label))
                 for label, trust, local, pres in client_ss:
                     add(cell('client', mn, 'ss', False, None, trust, local, peer, offer, pres, label))
+    # the client built with the DEPRECATED constructor TlsClientConfig::new (always with a server name), independent peer
+    for mn in ('12', '13'):
+        for offer in ('12', '13', 'both'):
+            for label, name, trust, local, pres in client_ca:
+                if name:
+                    add(dict(cell('client', mn, 'ca', False, name, trust, local, 'openssl', offer, pres, label), ctor='new'))
+            for label, trust, local, pres in client_ss:
+                add(dict(cell('client', mn, 'ss', False, 'test.com', trust, local, 'openssl', offer, pres, label), ctor='new'))
     # the client created through the C ABI (rodbus_client_channel_create_tls), independent peer
     for mn in ('12', '13'):
         for offer in ('12', '13', 'both'):
@@ -209,6 +221,17 @@ def grid(full):
                 add(cell('fficlient', mn, 'ca', False, name, trust, local, 'openssl', offer, pres, label))
             for label, trust, local, pres in client_ss:
                 add(cell('fficlient', mn, 'ss', False, None, trust, local, 'openssl', offer, pres, label))
+    # C ABI client: allow_server_name_wildcard x dns_name. Name verification is off only for dns_name "*" WITH the wildcard
+    # permitted; a real name is verified whether or not the wildcard is permitted; "*" without permission is not a name
+    # any certificate carries (the channel cannot even be created)
+    for mn in ('12', '13'):
+        for offer in ('12', '13', 'both'):
+            for label, dns, wild, pres in [('wildcard-permitted-right-name', 'test.com', True, 'ca2/server'),
+                                           ('wildcard-permitted-wrong-name', 'wrong.example', True, 'ca2/server'),
+                                           ('wildcard-permitted-right-name-of-wrongname-cert', 'wrong.example', True, 'ca2/server_wrongname'),
+                                           ('star-without-permission', '*', False, 'ca2/server'),
+                                           ('not-permitted-wrong-name', 'wrong.example', False, 'ca2/server')]:
+                add(dict(cell('fficlient', mn, 'ca', False, dns, 'ca2', 'ca2/client', 'openssl', offer, pres, label), wild=wild))
     if full:
         return cells
     # core grid: every version cell with a valid certificate against the independent peer, plus one
@@ -272,6 +295,8 @@ def run_stalled_handshake(ctx):
 
 def judge(c, impl, want):
     """compare one harness result with an expected 'OK:ver:role' / 'REFUSED'; returns None or a description"""
+    if impl.startswith('CONFIG') and c.get('label') == 'star-without-permission':
+        impl = 'REFUSED:-:-:0'          # the channel cannot be created: it never connects
     parts = impl.split(':')
     if len(parts) != 4 or parts[0] not in ('OK', 'REFUSED'):
         return f'unusable harness result {impl}'
@@ -296,7 +321,7 @@ def key_of(c, impl, want):
     got = impl.split(':')[0].lower()
     exp = want.split(':')[0].lower()
     what = f'{got}-expected-{exp}' if got != exp else 'details-differ'
-    return f'tls.{c["side"]}.min{c["min"]}.{c["mode"]}.{"authz" if c["authz"] else "noauthz"}.{c["label"]}.peer-{c["peer"]}-offers-{c["offer"]}.{what}'
+    return f'tls.{c["side"]}{".deprecated-new" if c.get("ctor") else ""}.min{c["min"]}.{c["mode"]}.{"authz" if c["authz"] else "noauthz"}.{c["label"]}.peer-{c["peer"]}-offers-{c["offer"]}.{what}'
 
 
 def run(ctx):
@@ -367,11 +392,11 @@ def run(ctx):
                                 f[0]['label'] not in ('valid', 'valid2'), f[0]['side'] != 'server', f[0]['mode'] != 'ca', not f[0]['authz']))
     seen = set()
     for c, i, spec, d in failing:
-        cls = (c['side'], c['min'], c['label'].rstrip('2'), c['offer'], i.split(':')[0])
+        cls = (c['side'], c.get('ctor'), c['min'], c['label'].rstrip('2'), i.split(':')[0])
         if cls in seen or len(seen) >= 4:
             continue
         seen.add(cls)
-        ctx.violation(key_of(c, i, spec), f'rodbus TLS {SIDE_NAMES.get(c["side"], c["side"])} (min TLS 1.{c["min"][1]}, {"authority" if c["mode"] == "ca" else "self-signed"} mode, '
+        ctx.violation(key_of(c, i, spec), f'rodbus TLS {SIDE_NAMES.get(c["side"], c["side"])}{" built with the deprecated TlsClientConfig::new" if c.get("ctor") else ""} (min TLS 1.{c["min"][1]}, {"authority" if c["mode"] == "ca" else "self-signed"} mode, '
                       f'{"with" if c["authz"] else "without"} authorization) against a {c["peer"]} peer offering {c["offer"]} presenting a {c["label"]} certificate: {d} (harness: {i}, Spec: {spec})',
                       {'cases': [c], 'impl': i, 'spec': spec, 'harness_line': harness_line(c), 'ground_truth': truth(c)})
     ctx.oblige('correspondence:tls-handshake-grid', n_spec == 0 and n_model == 0, f'{n_model} model / {n_spec} spec mismatches in {len(cells)} cells')
@@ -381,13 +406,13 @@ def run(ctx):
             run_stalled_handshake(ctx)
     classes = {}
     for c, b in zip(cells, both):
-        for k in (f'side:{c["side"]}', f'min:{c["min"]}', f'mode:{c["mode"]}', f'peer:{c["peer"]}', f'offer:{c["offer"]}', f'cert:{c["label"].rstrip("2")}',
+        for k in (f'side:{c["side"]}', f'ctor:{c.get("ctor") or "current"}', f'min:{c["min"]}', f'mode:{c["mode"]}', f'peer:{c["peer"]}', f'offer:{c["offer"]}', f'cert:{c["label"].rstrip("2")}',
                   f'authz:{int(c["authz"])}', 'expected:' + b.split('#')[1].split(':')[0]):
             classes[k] = classes.get(k, 0) + 1
     if not ctx.replay:
-        need = ['side:server', 'side:client', 'side:ffiserver', 'side:fficlient', 'min:12', 'min:13', 'mode:ca', 'mode:ss', 'peer:openssl', 'peer:rodbus', 'peer:plain', 'offer:12', 'offer:13',
+        need = ['ctor:new', 'side:server', 'side:client', 'side:ffiserver', 'side:fficlient', 'min:12', 'min:13', 'mode:ca', 'mode:ss', 'peer:openssl', 'peer:rodbus', 'peer:plain', 'offer:12', 'offer:13',
                 'offer:both', 'cert:valid', 'cert:wrong-authority', 'cert:wrong-name', 'cert:expired', 'cert:not-yet-valid', 'cert:role-less', 'cert:other-role', 'cert:two-roles', 'cert:via-intermediate', 'cert:missing-intermediate', 'cert:name-in-cn-no-san',
-                'cert:name-in-cn-but-other-san', 'cert:ip-literal-name-expected',
+                'cert:name-in-cn-but-other-san', 'cert:ip-literal-name-expected', 'cert:wildcard-permitted-wrong-name', 'cert:star-without-permission',
                 'expected:OK', 'expected:REFUSED']
         ctx.oblige('grid-reaches-expected-classes', all(classes.get(k, 0) >= 1 for k in need), str({k: classes.get(k, 0) for k in need}))
     ctx.coverage.update({
